@@ -235,6 +235,32 @@ func init() {
 		return c.ret(app("dec_str", c.args[0].S))
 	}
 
+	// ---- sync.Mutex / sync.RWMutex: ghost flag "the executing goroutine holds the lock" (lock discipline, C20) ----
+	// Lock on a held lock would deadlock (obligation); Unlock of a lock that is not held panics (obligation).
+	// One flag for all mutexes a function family touches: the identity of the mutex instance is not tracked.
+	for _, m := range []string{"(*sync.Mutex).", "(*sync.RWMutex)."} {
+		lock := func(c *callCtx) Val {
+			e := c.e()
+			e.initHeap("lock_held", "Bool")
+			c.obl("lock", "lock_not_already_held", not(e.heap(c.st, "lock_held", "Bool")))
+			e.setHeap(c.st, "lock_held", "Bool", "true")
+			return Val{T: c.rt}
+		}
+		unlock := func(c *callCtx) Val {
+			e := c.e()
+			e.initHeap("lock_held", "Bool")
+			c.obl("lock", "unlock_of_a_held_lock", e.heap(c.st, "lock_held", "Bool"))
+			e.setHeap(c.st, "lock_held", "Bool", "false")
+			return Val{T: c.rt}
+		}
+		libSpecs[m+"Lock"] = lock
+		libSpecs[m+"Unlock"] = unlock
+		if m == "(*sync.RWMutex)." {
+			libSpecs[m+"RLock"] = lock
+			libSpecs[m+"RUnlock"] = unlock
+		}
+	}
+
 	// ---- math/big.Int with value semantics (receiver mutation: result only; listed assumption) ----
 	b := "(*math/big.Int)."
 	libSpecs["math/big.NewInt"] = id0
@@ -270,9 +296,21 @@ func init() {
 		}
 		return c.fr.pureHavoc(c)
 	}
-	libSpecs[b+"Set"] = func(c *callCtx) Val { return c.ret(c.args[1].S) }
-	libSpecs[b+"SetInt64"] = func(c *callCtx) Val { return c.ret(c.args[1].S) }
-	libSpecs[b+"SetUint64"] = func(c *callCtx) Val { return c.ret(c.args[1].S) }
+	// z.Set*(x) used as a statement (result dropped): when z is a register defined in the same basic block as the
+	// call (z := new(big.Int); z.SetUint64(x)), every later use of z is dominated by the call, so the register is
+	// rebound to the new value. Other receivers keep result-only semantics (listed assumption).
+	setRecv := func(c *callCtx) Val {
+		if iv, ok := c.common.Args[0].(ssa.Instruction); ok && iv.Block() == c.instr.Block() {
+			if old, ok := c.fr.regs[c.common.Args[0]]; ok && old.Addr == nil {
+				old.S = c.args[1].S
+				c.fr.regs[c.common.Args[0]] = old
+			}
+		}
+		return c.ret(c.args[1].S)
+	}
+	libSpecs[b+"Set"] = setRecv
+	libSpecs[b+"SetInt64"] = setRecv
+	libSpecs[b+"SetUint64"] = setRecv
 	libSpecs[b+"Neg"] = func(c *callCtx) Val { return c.ret(app("-", c.args[1].S)) }
 	libSpecs[b+"Abs"] = func(c *callCtx) Val { return c.ret(app("iabs", c.args[1].S)) }
 	libSpecs[b+"Cmp"] = func(c *callCtx) Val {
